@@ -6,6 +6,7 @@ import XpDriver.Proto
 import XpDriver.C02
 import XpDriver.C06
 import XpDriver.C12
+import XpDriver.C13
 import XpDriver.C19
 open Lean Xp Xp.Proto
 
@@ -19,6 +20,10 @@ def dispatch (op : String) (j : Json) : R Json :=
   | "occl" => Ops.occl j
   | "explain_shape" => Ops.explainShapeOp j
   | "sanitize" => Ops.sanitizeOp j
+  | "hist_occl" => Ops.histOccl j
+  | "hist_lime" => Ops.histLime j
+  | "hist_cache" => Ops.histCache j
+  | "hist_gs" => Ops.histGs j
   | "obj_run" => Ops.objRun j
   | "obj_compile" => Ops.objCompile j
   | "to_valid" => Ops.toValidOp j
